@@ -233,7 +233,7 @@ func (d *Driver) Apply(a Action) (Event, bool) {
 	case "NodeGroup":
 		return env(c.NodeLabel(a.N, GroupLabel, a.V))
 	case "NodeOverride":
-		return env(c.NodeOverride(a.N, ns, name, a.V))
+		return env(c.NodeOverride(a.N, ns, name, a.V, a.W))
 	case "KRound":
 		c.KRound()
 		return env(nil)
